@@ -11,7 +11,7 @@ for id in "$@"; do
   ref=""
   for jobs in 16 16 5 1; do
     runs=${RUNS:-6000}
-    line=$(VERIF_SEED=$seed VERIF_JOBS=$jobs ./check "$id" --runs "$runs" --no-corpus 2>&1 | grep -E "^\[[a-z]+\] [0-9]+ runs" | sed -E 's/, [0-9.]+s wall, [0-9]+ runs\/h//')
+    line=$(VERIF_SEED=$seed VERIF_JOBS=$jobs ./check "$id" --runs "$runs" --budget 900 --no-corpus 2>&1 | grep -E "^\[[a-z]+\] [0-9]+ runs" | sed -E 's/, [0-9.]+s wall, [0-9]+ runs\/h//')
     if [ -z "$ref" ]; then ref="$line"; fi
     if [ "$line" != "$ref" ] || [ -z "$line" ]; then echo "NONDETERMINISTIC $id jobs=$jobs: '$line' vs '$ref'"; rc=1; fi
   done
